@@ -401,6 +401,25 @@ func init() {
 		sb.WriteString("def executeSteps : List String := " + leanStrList(steps) + "\n")
 		sb.WriteString("def toObjectRelationBody : String := " + leanStr(torBody) + "\n")
 		sb.WriteString("def objectRelationFormat : String := " + leanStr(orFormat) + "\n")
+		// read loops: the conditions under which a tuple-read loop of Expand stops quietly (`break`); anything else
+		// must surface as an error, never as a shorter leaf
+		var loopBreaks []string
+		for _, d := range f.Decls {
+			fd, ok := d.(*ast.FuncDecl)
+			if !ok || fd.Body == nil {
+				continue
+			}
+			ast.Inspect(fd.Body, func(n ast.Node) bool {
+				if is, ok := n.(*ast.IfStmt); ok && len(is.Body.List) > 0 {
+					if bs, ok := is.Body.List[len(is.Body.List)-1].(*ast.BranchStmt); ok && bs.Tok.String() == "break" {
+						loopBreaks = append(loopBreaks, fd.Name.Name+": "+src(fset, is.Cond))
+					}
+				}
+				return true
+			})
+		}
+		sb.WriteString("/-- `if cond { … break }` sites of expand.go (function: condition) -/\n")
+		sb.WriteString("def loopBreaks : List String := " + leanStrList(loopBreaks) + "\n")
 		sb.WriteString("\nend OpenFGAVerif.Gen.Expand\n")
 		return Result{Lean: sb.String(), Summary: map[string]interface{}{
 			"resolveSwitch": sw, "nodeNames": names, "recursionKeepsTupleKey": keepsTk,
